@@ -83,7 +83,7 @@ def main():
         chk.unit('verif:shims/c13_prims.c', fn, prims.CONTRACTS, 'math', 'real', abspath=SHIM, check_arith=False)
     chk.unit('verif:shims/c13_prims.c', 'mjc_PlaneCapsule', prims.plane_capsule_contracts(), 'math', 'real', abspath=SHIM, check_arith=False)
     chk.unit('verif:shims/c13_prims.c', 'mjc_SphereCylinder', prims.sphere_cylinder_contracts(), 'math', 'real', abspath=SHIM, check_arith=False)
-    for fn in ('mjc_PlaneSphere', 'mjc_SphereSphere'):      # the wrappers hand the raw colliders the arrays of the right geoms
+    for fn in ('mjc_PlaneSphere', 'mjc_SphereSphere', 'mjc_SphereCapsule'):      # the wrappers hand the raw colliders the arrays of the right geoms
         chk.unit('verif:shims/c13_prims.c', fn, prims.wrapper_contracts(), 'math', 'real', abspath=SHIM, check_arith=False)
     for fn in ('getMargin', 'getGap'):
         chk.unit('src/engine/engine_collision_driver.c', fn, prims.MARGIN_CONTRACTS, 'math', 'real')
